@@ -20,7 +20,8 @@ RULE = ("grid = every suite id in CipherSuite.ietfNames x versions SSLv3.."
         "oracle from model/suites.py (independent parse of the IANA name) "
         "and model/prf.py (stdlib hmac).  distinct = grid cell; non-trivial "
         "= pos cells that completed and had every sub-oracle evaluated, "
-        "negative cells that produced a definite refusal")
+        "negative cells that produced a definite refusal"
+        " Extra cases: resume_other (TLS 1.3 session of suite A offered where only suite B can be negotiated: a PSK of another hash must not be accepted) and dualcert (RSA+ECDSA server via virtual_hosts x client signature-algorithm / suite restrictions: key type of the certificate on the wire == the suite's).")
 LEVEL_TEXT = ("Exhaustive over the (suite, version, case) grid in both tiers "
               "(each cell is one deterministic simulated handshake plus a "
               "short data exchange); the thorough tier repeats the grid under "
